@@ -677,7 +677,25 @@ async def _run_tamper(case, out):
     blob_kind = "file" if not raw else case["blob_kind"]
     tmp = tempfile.mkdtemp(prefix="verif-c02t-")
     try:
-        if blob_kind == "file":
+        if case.get("in_place") and raw and changed and ref.classify(original_raw)[0] == "consistent":
+            # history: the genuine descriptor is loaded once (must load), then the file of that name is overwritten with the
+            # tampered bytes (damage on disk, as upstream's tests do it) and loaded again: what is loaded is judged on its content
+            blob_hash = hashlib.sha384(original_raw).hexdigest()
+            path = os.path.join(tmp, blob_hash)
+            with open(path, "wb") as f:
+                f.write(original_raw)
+            first = blob_file.BlobFile(loop, blob_hash, len(original_raw), None, tmp)
+            st0, res0 = await bounded(descriptor.StreamDescriptor.from_stream_descriptor_blob(loop, tmp, first), loop, 40)
+            first.close()
+            if st0 != "ok":
+                out.violate("consistent-descriptor-refused:before-in-place-damage", "%r" % (res0,))
+                return
+            with open(path, "wb") as f:
+                f.write(raw)
+            blob = blob_file.BlobFile(loop, blob_hash, len(raw), None, tmp)
+            out.label("damaged_in_place_after_first_load")
+            blob_kind = "file"
+        elif blob_kind == "file":
             with open(os.path.join(tmp, blob_hash), "wb") as f:
                 f.write(raw)
             blob = blob_file.BlobFile(loop, blob_hash, len(raw) or None, None, tmp)
@@ -754,7 +772,8 @@ def tamper_case(draw):
                           st.sampled_from(TAMPERS_DOC + TAMPERS_ENC + TAMPERS_BYTES)))
     t = {"t": kind, "i": draw(st.integers(0, 11)), "j": draw(st.integers(0, 11)), "pos": draw(st.integers(0, 4000)),
          "v": draw(st.integers(0, 99999)), "text": draw(plain_text), "recommit": draw(st.booleans())}
-    return {"doc": spec, "tamper": t, "blob_kind": draw(st.sampled_from(["buffer", "buffer", "file"]))}
+    return {"doc": spec, "tamper": t, "blob_kind": draw(st.sampled_from(["buffer", "buffer", "file"])),
+            "in_place": draw(st.sampled_from([False, False, True]))}
 
 
 # ---------------------------------------------------------------------------------------------------------------
@@ -859,7 +878,7 @@ PARTS = [
     Part("tamper", lambda tier: tamper_case(), run_tamper, 2000, 20000, quick_shards=4, thorough_shards=16,
          essential=("class:hash_mismatch", "class:invariant", "class:unparsable", "class:malformed", "class:consistent",
                     "hash_neutral_accepted", "recommitted", "tamper:remove_terminator", "tamper:swap", "tamper:none",
-                    "tamper:terminator_hash_empty")),
+                    "tamper:terminator_hash_empty", "damaged_in_place_after_first_load")),
     Part("names", lambda tier: name_case(), run_name, 2500, 30000, quick_shards=4, thorough_shards=16,
          essential=("has_illegal", "has_c0", "default_name_used", "reserved", "blank_falls_back_to_claim_name")),
 ]
